@@ -317,14 +317,52 @@ fn scenario(cfg: &Cfg, track: bool) -> Out {
     let ids = crate::epnet::ranked_ids(&target, n);
     let mut net = EpNet::new(&mut w, &ids);
     let eps = net.addrs();
-    let a = w.add_node(NodeCfg::new([9, 9, 9, 9], 7000).bootstrap(&eps).id([0x21; 20]));
+    // join mode 4: the reader runs in server mode and every responder reports endpoint 0's own
+    // address as the reader's public address; endpoint 0 then pings the reader from that address
+    // (which the reader takes for its confirming self ping). Responders do not earn trust that way.
+    let pose = cfg.join == 4;
+    let mut ncfg = NodeCfg::new([9, 9, 9, 9], 7000).bootstrap(&eps).id([0x21; 20]);
+    if pose {
+        ncfg = ncfg.server();
+    }
+    let a = w.add_node(ncfg);
+    let a_addr = w.node_addr(a);
+    let vote = eps[0];
+    // (every honest answer of join mode 4 carries the lying `ip` field)
+    let lying = |net: &mut EpNet, w: &mut World, ep: usize, dgram: &crate::sim::Datagram| {
+        let i = net.index_of(ep).expect("ep");
+        if let Some(q) = Krpc::parse(&dgram.bytes) {
+            if q.is_query() {
+                if let Some(bytes) = net.honest_reply(i, &q, dgram.from, w.now) {
+                    let (mut tree, _) = crate::bencode::decode(&bytes).expect("own reply");
+                    tree.set("ip", B::bytes(krpc::compact_addr(&vote)));
+                    let from = net.eps[i].addr;
+                    w.send_raw(from, dgram.from, crate::bencode::encode(&tree));
+                }
+            }
+        }
+    };
     let h = w.now + 3 * SEC;
     w.run_until(h, |w, ev| {
         if let Event::EndpointRecv { ep, dgram } = ev {
-            net.handle(w, *ep, dgram);
+            if pose {
+                lying(&mut net, w, *ep, dgram);
+            } else {
+                net.handle(w, *ep, dgram);
+            }
         }
         false
     });
+    if pose {
+        w.send_raw(vote, a_addr, krpc::q_ping(&[0x70, 0x6f, 0x73, 0x65], &net.eps[0].id));
+        let h = w.now + SEC;
+        w.run_until(h, |w, ev| {
+            if let Event::EndpointRecv { ep, dgram } = ev {
+                lying(&mut net, w, *ep, dgram);
+            }
+            false
+        });
+    }
     let lat_rank = permutation(n, cfg.order);
     let k = keys();
     w.sync_api = cfg.sync;
@@ -356,6 +394,9 @@ fn scenario(cfg: &Cfg, track: bool) -> Out {
     calls.push(start_call(&mut w));
     let join_at = w.now + 100 * MS;
     let mut joined = cfg.join != 1 && cfg.join != 3;
+    if pose {
+        out_posed(&mut w, a, vote);
+    }
     let lookup_q: &str = match cfg.api {
         4 => "get_signed_peers",
         _ => "get",
@@ -385,7 +426,7 @@ fn scenario(cfg: &Cfg, track: bool) -> Out {
                     let v = cfg.answers[i];
                     let mut r = vec![("id", B::bytes(net.eps[i].id)), ("token", B::bytes(&net.eps[i].token)), ("nodes", B::bytes(krpc::compact_nodes(&net.closest_for(i, &target))))];
                     r.extend(forged_fields(cfg.api, v, UNIX_BASE_MICROS + w.now / 1000));
-                    let bytes = krpc::response(&q.t, r, Some(&dgram.from), Some(&krpc::VERSION_RS));
+                    let bytes = krpc::response(&q.t, r, Some(if pose { &vote } else { &dgram.from }), Some(&krpc::VERSION_RS));
                     // distinct latencies give the arrival order; with a joiner the last one is slow
                     let mut lat = (10 + 40 * lat_rank[i] as u64) * MS;
                     if cfg.join >= 1 && lat_rank[i] == n - 1 {
@@ -393,6 +434,8 @@ fn scenario(cfg: &Cfg, track: bool) -> Out {
                     }
                     let from = net.eps[i].addr;
                     w.send_raw_with_latency(from, dgram.from, bytes, lat);
+                } else if pose {
+                    lying(&mut net, &mut w, *ep, dgram);
                 } else {
                     net.handle(&mut w, *ep, dgram);
                 }
@@ -427,6 +470,16 @@ fn scenario(cfg: &Cfg, track: bool) -> Out {
     Out { bad, yielded, positive_control: offered && yielded > 0, steps: w.steps, digests: w.state_digests.iter().copied().collect(), done }
 }
 
+/// (vacuity record for join mode 4: did the reader take the responder's address for its own?)
+fn out_posed(w: &mut World, a: usize, vote: std::net::SocketAddrV4) {
+    let s = w.snapshot(a);
+    POSED.with(|p| p.set(p.get() + (s.core.public_address == Some(vote) && !s.core.firewalled) as u64));
+}
+
+thread_local! {
+    static POSED: std::cell::Cell<u64> = const { std::cell::Cell::new(0) };
+}
+
 fn configs(tier: Tier) -> Vec<Cfg> {
     let n = 3;
     let orders: usize = (1..=n).product();
@@ -436,8 +489,11 @@ fn configs(tier: Tier) -> Vec<Cfg> {
         for c in 0..ml.pow(n as u32) {
             let answers: Vec<usize> = (0..n).map(|i| (c / ml.pow(i as u32)) % ml).collect();
             for order in 0..orders {
-                for join in 0..4 {
+                for join in 0..5 {
                     if join == 3 && api != 2 {
+                        continue;
+                    }
+                    if join == 4 && (!(api == 0 || api == 2 || api == 4) || (tier.is_quick() && order != 0)) {
                         continue;
                     }
                     if join >= 1 && tier.is_quick() && (order % 2 == 1 || (join == 2 && api != 2 && order != 0)) {
@@ -529,6 +585,7 @@ fn run(tier: Tier, shard: usize, nshards: usize, _seed: u64) -> Partial {
         let o = scenario(c, i % 64 == shard);
         record(c, &o, &mut out);
     }
+    out.add("readers_that_took_a_responders_address_for_their_own", POSED.with(|p| p.get()));
     out.witness("authentic values are yielded among forgeries", out.count("positive_controls") > 0);
     out.sample(json!({"api": "get_mutable(salt)", "answers": ["other-key-valid", "right-item", "unsalted-slot-item"], "arrival_order": 4, "join": 1}));
     let _ = (Ipv4Addr::LOCALHOST, SocketAddrV4::new(Ipv4Addr::LOCALHOST, 0));
